@@ -36,9 +36,9 @@ PROP = dict(
     assumptions=['OpenSSL 3.0 libcrypto encodes and signs certificates/CRLs correctly',
                  'time() is the only wall-clock source of the certificate date check (interposed by ld --wrap)'],
     targets=[
-        _t('c03_x509_path', None, 5600, 220000, 540),
-        _t('c03_copied_sig', 1, 640, 16000, 80),
-        _t('c03_soft_defect', 2, 800, 16000, 80),
-        _t('c03_crl', 3, 800, 24000, 100),
+        _t('c03_x509_path', None, 5600, 220000, 470),
+        _t('c03_copied_sig', 1, 640, 16000, 70),
+        _t('c03_soft_defect', 2, 800, 16000, 70),
+        _t('c03_crl', 3, 800, 24000, 90),
     ],
 )
